@@ -2080,17 +2080,35 @@ DenseMatrix DenseMatrix::loads(const std::string &serialized)
     unsigned row, col;
     vec_basic obj;
     std::istringstream iss(serialized);
-    RCPBasicAwareInputArchive<cereal::PortableBinaryInputArchive> iarchive{iss};
-    iarchive(major, minor);
-    if (major != SYMENGINE_MAJOR_VERSION or minor != SYMENGINE_MINOR_VERSION) {
-        throw SerializationError(StreamFmt()
-                                 << "SymEngine-" << SYMENGINE_MAJOR_VERSION
-                                 << "." << SYMENGINE_MINOR_VERSION
-                                 << " was asked to deserialize an object "
-                                 << "created using SymEngine-" << major << "."
-                                 << minor << ".");
+    try {
+        RCPBasicAwareInputArchive<cereal::PortableBinaryInputArchive> iarchive{
+            iss};
+        iarchive(major, minor);
+        if (major != SYMENGINE_MAJOR_VERSION
+            or minor != SYMENGINE_MINOR_VERSION) {
+            throw SerializationError(
+                StreamFmt()
+                << "SymEngine-" << SYMENGINE_MAJOR_VERSION << "."
+                << SYMENGINE_MINOR_VERSION
+                << " was asked to deserialize an object "
+                << "created using SymEngine-" << major << "." << minor << ".");
+        }
+        iarchive(row, col, obj);
+    } catch (cereal::Exception &e) {
+        // a truncated header
+        throw SerializationError(e.what());
+    } catch (std::length_error &e) {
+        // an element count that no vector can hold
+        throw SerializationError(e.what());
+    } catch (std::bad_alloc &e) {
+        throw SerializationError("Invalid size");
     }
-    iarchive(row, col, obj);
+    // the element vector must have exactly row * col entries: every accessor
+    // indexes it with i * col + j
+    if (static_cast<unsigned long long>(row) * col != obj.size()) {
+        throw SerializationError("DenseMatrix: dimensions do not match the "
+                                 "number of elements");
+    }
     return DenseMatrix(row, col, std::move(obj));
 #else
     throw NotImplementedError("Serialization not implemented in no-rtti mode");
